@@ -146,6 +146,8 @@ def run(ctx) -> None:
     Is8 = make_interp(ctx.p)
     shapes.presentation_rule(ctx, Is8, "C16.I8.presentations-give-one-record")
     shapes.other_lines_rule(ctx, Is8, "C16.I8.other-line-kinds-give-nothing")
+    from ._matchrules import observer_chain_rules
+    observer_chain_rules(ctx, "C16.I9.empty-pseudo-instruction-never-reaches-the-stream", "C16.I9.every-other-instruction-reaches-the-stream")
     # I4 forwarding
     from ._parser import forwarding_rule
     forwarding_rule(ctx, "C16.I4.only-instructions-forwarded")
